@@ -383,7 +383,11 @@ fn mutate(frame: &[u8], second: &[u8], ver: u8, rng: &mut SplitMix) -> (Vec<u8>,
                 out[0] |= 0x06;
             } else if t == 1 {
                 if let Some(o) = connect_flags_offset(frame) {
-                    out[o] |= 0x18 | 0x04;
+                    // Will QoS 3, with the Will Flag set or (a value of 3 is malformed either way) clear
+                    out[o] |= 0x18;
+                    if rng.chance(1, 2) {
+                        out[o] |= 0x04;
+                    }
                 }
             } else if t == 8 {
                 let l = out.len();
@@ -522,7 +526,7 @@ fn inject_property(frame: &[u8], rng: &mut SplitMix) -> (Vec<u8>, &'static str) 
     (out, "inject-property")
 }
 
-fn corpus5(seed: u64, n: usize) -> Vec<Vec<u8>> {
+pub fn corpus5(seed: u64, n: usize) -> Vec<Vec<u8>> {
     use proptest::prelude::*;
     let st = (strat::p5(), strat::layout(), any::<u32>());
     gen_values(seed, n * 2, &st)
@@ -544,7 +548,7 @@ fn corpus5(seed: u64, n: usize) -> Vec<Vec<u8>> {
         .collect()
 }
 
-fn corpus3(seed: u64, n: usize) -> Vec<Vec<u8>> {
+pub fn corpus3(seed: u64, n: usize) -> Vec<Vec<u8>> {
     use proptest::prelude::*;
     let st = (strat::p3(), any::<u32>());
     gen_values(seed, n * 2, &st)
